@@ -1,11 +1,11 @@
 #!/bin/bash
 # usage: tools/try_benign.sh <dir with patch_NN.diff> — applies each patch to a scratch worktree (/tmp/wt/mut), runs all checks, prints non-silent results
 dir="$1"
-cd /tmp/wt/mut || exit 2
+cd ${MUT_WT:-/tmp/wt/mut} || exit 2
 for p in "$dir"/patch_*.diff; do
   git checkout -q -- . ; git clean -fdq
   if ! git apply "$p" 2>/dev/null; then echo "== $(basename $p): DOES NOT APPLY"; continue; fi
-  out=$(/verif/bin/ddverif -property all -repo /tmp/wt/mut -evidence /tmp/ev_mut | grep -E '^FAIL|^UNDECIDED|^ERROR' | cut -c1-400)
+  out=$(/verif/bin/ddverif -property all -repo ${MUT_WT:-/tmp/wt/mut} -evidence /tmp/ev_mut | grep -E '^FAIL|^UNDECIDED|^ERROR' | cut -c1-400)
   if [ -z "$out" ]; then echo "== $(basename $p): silent"; else echo "== $(basename $p): ALARM"; echo "$out"; fi
 done
 git checkout -q -- . ; git clean -fdq
